@@ -146,6 +146,8 @@ def evaluate(name, rule, N):
     except Exception as exc:  # noqa: BLE001
         out["exc"] = specrun.exc_info(exc)
         out["py"] = py
+        if len(reads) == len(py):
+            reads.append(sorted(set(log), key=str))  # what was requested for the size at which counting failed
         out["reads"] = reads
     out["truth"] = [specrun.st(true_terms(rule.comb_class, n)) for n in range(N + 1)]
     # skeleton: class 0 = the rule, classes 1.. = its children as tables of their true terms
@@ -172,6 +174,14 @@ def worker(args):
     seed, count, N = args
     rnd = random.Random(seed)
     specrun.quiet()
+    upword.LAZY_MIN = [0, 0, 0, 2, 99][seed % 5]  # some jobs with minimum sizes reported only as "at least 1"
+    try:
+        return _worker(rnd, count, N)
+    finally:
+        upword.LAZY_MIN = 0
+
+
+def _worker(rnd, count, N):
     res = []
     for c, mode in classes(rnd, count):
         for s in strategies(mode):
